@@ -1,6 +1,7 @@
 Require Extraction.
 Require Import ExtrOcamlBasic.
 From Coq Require Import NArith ZArith List.
-From CppcmsV Require Import C19.Defs.
+From CppcmsV Require Import C19.Defs C19.SessDefs.
 Definition keep_types : (N * Z * nat) := (0%N, 0%Z, 0%nat).
-Extraction "c19m.ml" keep_types enc load wt elems_ok payload value_eqb blen le_bytes le_val next_chunk_size next_chunk_size_old.
+Extraction "c19m.ml" keep_types enc load wt elems_ok payload value_eqb blen le_bytes le_val next_chunk_size next_chunk_size_old
+  save_data load_data sess_map sess_keys_distinct sess_size pack_hdr.
